@@ -26,9 +26,10 @@ BIN = {ast.Add: ast.Sub, ast.Sub: ast.Add, ast.Mult: ast.Div, ast.Div: ast.Mult}
 
 
 class Sites(ast.NodeVisitor):
-    def __init__(self):
+    def __init__(self, src=''):
         self.sites = []
         self.fn = []
+        self.lines = src.split('\n') + ['']
 
     def visit_FunctionDef(self, node):
         self.fn.append(node.name)
@@ -36,6 +37,9 @@ class Sites(ast.NodeVisitor):
         self.fn.pop()
 
     def add(self, node, kind):
+        ln = getattr(node, 'lineno', 0)
+        if ln and 'pragma: no cover' in self.lines[ln - 1] and not self.lines[ln - 1].lstrip().startswith('def '):
+            return
         self.sites.append((id(node), kind, getattr(node, 'lineno', 0), '.'.join(self.fn)))
 
     def visit_Compare(self, node):
@@ -58,7 +62,19 @@ class Sites(ast.NodeVisitor):
         self.generic_visit(node)
 
     def visit_If(self, node):
+        if isinstance(node.test, ast.Name) and node.test.id == 'is_python_3':
+            # the Python-2 branch is dead code here
+            for ch in node.body:
+                self.visit(ch)
+            return
+        if isinstance(node.test, ast.Compare) and isinstance(node.test.left, ast.Name) and node.test.left.id == 'long_name':
+            return      # default long names are documentation
         self.add(node, 'ifneg')
+        self.generic_visit(node)
+
+    def visit_Call(self, node):
+        if isinstance(node.func, ast.Name) and node.func.id in ('Logger', 'print'):
+            return      # log text and priorities are not behaviour the properties speak about
         self.generic_visit(node)
 
     def visit_Constant(self, node):
@@ -119,7 +135,7 @@ def mutate(tree, target_id, kind):
 def enumerate_sites(path):
     src = open(os.path.join(REPO, path)).read()
     tree = ast.parse(src)
-    s = Sites()
+    s = Sites(src)
     s.visit(tree)
     out = []
     for idx, (nid, kind, line, fn) in enumerate(s.sites):
@@ -130,7 +146,7 @@ def enumerate_sites(path):
 def build_mutant(site):
     src = open(os.path.join(REPO, site['file'])).read()
     tree = ast.parse(src)
-    s = Sites()
+    s = Sites(src)
     s.visit(tree)
     nid, kind, line, fn = s.sites[site['index']]
     new = mutate(tree, nid, kind)
